@@ -624,6 +624,11 @@ func (e *kvElection) attemptPriorityTakeover(payloadBytes []byte) error {
 	if e.isStopped() {
 		return ErrAlreadyStopped
 	}
+	// A leftover attempt of an instance that leads meanwhile has nothing to take
+	// over; replacing its own record would orphan the term in progress.
+	if e.IsLeader() {
+		return fmt.Errorf("already leader")
+	}
 
 	issuedAt := time.Now()
 	newRev, err := e.kv.Update(e.key, payloadBytes, entry.Revision())
@@ -654,8 +659,11 @@ func (e *kvElection) attemptPriorityTakeover(payloadBytes []byte) error {
 		return fmt.Errorf("failed to unmarshal payload after takeover: %w", err)
 	}
 
-	e.revision.Store(newRev)
-	e.token.Store(newPayloadStruct.Token)
+	// becomeLeader publishes token and revision itself - and only if this
+	// acquisition really starts a term. Storing them here first changed the
+	// token and revision of a term in progress when the call was then ignored
+	// (the instance already led, e.g. after "taking over" a forged record that
+	// carried its own id).
 	e.becomeLeader(newPayloadStruct.Token, newRev)
 	return nil
 }
